@@ -10,8 +10,9 @@ pub mod c05;
 pub mod c06;
 pub mod c07;
 pub mod c08;
+pub mod c10;
 
-pub const IDS: &[&str] = &["C01", "C02", "C03", "C04", "C05", "C06", "C07", "C08"];
+pub const IDS: &[&str] = &["C01", "C02", "C03", "C04", "C05", "C06", "C07", "C08", "C10"];
 
 macro_rules! dispatch {
     ($id:expr, $f:ident, $($arg:expr),*) => {
@@ -24,6 +25,7 @@ macro_rules! dispatch {
             "C06" => $f(&c06::C06, $($arg),*),
             "C07" => $f(&c07::C07, $($arg),*),
             "C08" => $f(&c08::C08, $($arg),*),
+            "C10" => $f(&c10::C10, $($arg),*),
             other => {
                 eprintln!("unknown property {other}");
                 2
